@@ -25,6 +25,7 @@ META = {
                      "imputers honour C06 (empty subset = unperturbed prediction)", "deterministic model and loss"],
     "assumptions": ["real arithmetic; the statement allows rounding error"],
 }
+META["explanation"] += ' Round 5: every chain link books its credit (no condition of its own); the default imputer is built on the validated model function (DEP-C15 BUDGET). HAZARD: constructs that do not mean what they look like, met in the analysed code (defaults evaluated once, class-level containers changed through self, dict.fromkeys with a shared mutable value, late-binding lambdas, truth value of objects that define __len__) are reported by every check.'
 MIN_INSTANCES = {"TELESCOPE": 2, "SAME": 1, "CHAIN": 4, "COUNT": 3, "OPERATOR": 2, "FORMULA": 4}
 
 
